@@ -804,6 +804,13 @@ def handle (case impl : List String) : String :=
       ("cliBudgetUsed", match started with | some s => lo ≤ s | none => false),
       ("cliRestStillBuilt", !given || kk ≤ nn || good == some gg),
       ("cliExitReflectsFailure", code == some (if nn == 0 then 0 else 1))]
+  | ["n2bin", "summary", n, m, f] =>
+    -- C19 through run_impl: `ran N tasks` counts the commands that completed successfully, `no work
+    -- to do` is printed exactly when that number is zero, and neither after a failure (exit status 1)
+    let nn := n.toNat?.getD 0; let mm := m.toNat?.getD 0; let ff := f.toNat?.getD 0
+    let line := fun (k : Nat) => hexOfBytes (bytesOfString (if k == 0 then "n2: no work to do" else s!"n2: ran {k} task{if k == 1 then "" else "s"}, now up to date"))
+    let want := s!"codes=0,{if ff == 0 then 0 else 1} first={line nn} second={if ff == 0 then line mm else "-"} copied={nn}"
+    want ++ mons [("cliSummaryExact", " ".intercalate impl == want)]
   | ["n2bin", "where", c, f, _, targets] =>
     -- C18 through parse_args: -C selects the directory, -f the manifest in it, `builddir` (set by
     -- alt.ninja only) the place of the log; the targets named (else `default a`) are built there by
